@@ -95,17 +95,17 @@ Proof.
 Qed.
 
 (* ---------------------------------------------------------------- fill_buf *)
-Definition has_room (st : bbr) : Prop := buf_bits st + 7 < 8 * cap st.
-
+(* read_to_end(limit = capacity - len) leaves the vector short of its capacity exactly when the source ran out before
+   the limit (read_to_end_take_spec: it appends min(limit, bytes left) bytes); so `input = None` loses nothing, at any
+   refill position, full buffer included. *)
 Lemma fill_buf_spec st :
   inv st ->
   exists st', fill_buf st = (Ok tt, st') /\ inv st' /\ cap st' = cap st /\
-    (has_room st \/ src_empty st ->
-       abs st' = abs st /\ (8 * cap st - 7 <= buf_bits st' \/ src_empty st')).
+    abs st' = abs st /\ (8 * cap st - 7 <= buf_bits st' \/ src_empty st').
 Proof.
   intros I. pose proof I as (W & L & C). pose proof W as (P1 & P2 & P3 & P4 & P5).
   unfold fill_buf. destruct (input st) as [src|] eqn:Ein.
-  2:{ exists st. repeat split; try assumption; try reflexivity.
+  2:{ exists st. split; [reflexivity|]. split; [exact I|]. split; [reflexivity|]. split; [reflexivity|].
       right. unfold src_empty, src_rest. now rewrite Ein. }
   unfold buf_bit_pos. rewrite br_position_bitpos.
   set (bp := bitpos (rd st)). set (bytepos := bp / 8). set (k := bp mod 8).
@@ -120,7 +120,6 @@ Proof.
   set (limit := cap st - nlen buf1).
   destruct (read_to_end_take_spec (S (N.to_nat limit)) limit src buf1 ltac:(lia)) as (src' & Er & Ed & Ei).
   rewrite Er.
-  destruct (N.ltb_spec (buf_len st) bytepos) as [X|_]; [lia|].
   set (new := ntake limit (sdata src)).
   assert (Lnew : nlen new = N.min limit (nlen (sdata src))) by (subst new; apply nlen_ntake).
   set (buf2 := buf1 ++ new).
@@ -128,25 +127,18 @@ Proof.
   assert (Hk1 : 0 < k -> 1 <= nlen buf2) by lia.
   destruct (br_skip_fresh buf2 k Hk Hk1) as (r1 & Es & Eb & Ebits & W1).
   rewrite Es.
-  (* the bits of the new reader *)
   assert (B1 : br_bits r1 = br_bits (rd st) ++ mbits new).
   { rewrite Ebits. subst buf2. rewrite mbits_app.
     rewrite ndrop_app_le by (rewrite nlen_mbits; lia).
     subst buf1. rewrite <- mbits_ndrop, ndrop_ndrop, P5. fold buf. fold bp. rewrite <- Dbp. reflexivity. }
   eexists; split; [reflexivity|]. cbn [cap rd buf_len input].
   split; [|split; [reflexivity|]].
-  - (* inv *)
-    unfold inv; cbn [cap rd buf_len]. split; [exact W1|]. rewrite Eb. split; [reflexivity|]. lia.
-  - intros Hroom.
-    assert (Dempty : nlen new = 0 -> sdata src = []).
-    { intros Z. destruct Hroom as [R|R].
-      - unfold has_room in R. rewrite (buf_bits_len st I), (nlen_br_bits _ P1) in R. fold buf in R.
-        apply nlen_0_nil. lia.
-      - unfold src_empty, src_rest in R. now rewrite Ein in R. }
-    assert (Erest : src_rest (mkbbr (if buf_len st - bytepos =? nlen buf2 then None else Some src') r1 (cap st)
+  - unfold inv; cbn [cap rd buf_len]. split; [exact W1|]. rewrite Eb. split; [reflexivity|]. lia.
+  - assert (Erest : src_rest (mkbbr (if nlen buf2 <? cap st then None else Some src') r1 (cap st)
                                     (nlen buf2) (nreads st + (sidx src' - sidx src))) = ndrop limit (sdata src)).
-    { unfold src_rest; cbn [input]. destruct (N.eqb_spec (buf_len st - bytepos) (nlen buf2)) as [Q|Q].
-      - assert (Z : nlen new = 0) by lia. rewrite (Dempty Z). unfold ndrop. now rewrite skipn_nil.
+    { unfold src_rest; cbn [input]. destruct (N.ltb_spec (nlen buf2) (cap st)) as [Q|Q].
+      - (* short of the capacity: the source had fewer than `limit` bytes left, all of them are in the buffer now *)
+        symmetry. apply ndrop_all. lia.
       - exact Ed. }
     split.
     + rewrite !abs_mbits. cbn [rd]. rewrite Erest, B1. unfold src_rest at 1. rewrite Ein.
@@ -161,34 +153,25 @@ Proof.
         unfold bitpos. lia.
 Qed.
 
-(* the property of the refill proper *)
+(* the property of the refill proper: at every refill position *)
 Lemma refill_preserves_abs st :
-  inv st -> (buf_bits st + 7 < 8 * cap st \/ src_rest st = []) ->
+  inv st ->
   exists st', fill_buf st = (Ok tt, st') /\ inv st' /\ cap st' = cap st /\ abs st' = abs st /\
               (8 * cap st - 7 <= buf_bits st' \/ src_rest st' = []).
-Proof.
-  intros I R. destruct (fill_buf_spec st I) as (st' & E & I' & C & H). destruct (H R) as (A & P).
-  exists st'. auto.
-Qed.
-
-(* a request for r bits with r + 7 <= 8 * capacity that finds fewer than r buffered leaves room for a byte *)
-Lemma request_has_room st r : buf_bits st < r -> r + 7 <= 8 * cap st -> has_room st.
-Proof. unfold has_room. lia. Qed.
+Proof. exact (fill_buf_spec st). Qed.
 
 (* `if buf_bits() < r { fill_buf()? }` *)
 Lemma ensure_spec st r :
   inv st ->
-  exists st', ensure r st = (Ok tt, st') /\ inv st' /\ cap st' = cap st /\
-    (r + 7 <= 8 * cap st -> abs st' = abs st /\ (r <= buf_bits st' \/ src_empty st')).
+  exists st', ensure r st = (Ok tt, st') /\ inv st' /\ cap st' = cap st /\ abs st' = abs st /\
+    (r + 7 <= 8 * cap st -> (r <= buf_bits st' \/ src_empty st')).
 Proof.
   intros I. unfold ensure. destruct (N.ltb_spec (buf_bits st) r) as [C|C].
-  - destruct (fill_buf_spec st I) as (st' & E & I' & Cc & H). exists st'.
-    split; [exact E|]. split; [exact I'|]. split; [exact Cc|].
-    intros R. destruct (H (or_introl (request_has_room st r C R))) as (A & [P|P]).
-    + split; [exact A|left; lia].
-    + split; [exact A|now right].
-  - exists st. split; [reflexivity|]. split; [exact I|]. split; [reflexivity|].
-    intros _. split; [reflexivity|now left].
+  - destruct (fill_buf_spec st I) as (st' & E & I' & Cc & A & P). exists st'.
+    split; [exact E|]. split; [exact I'|]. split; [exact Cc|]. split; [exact A|].
+    intros R. destruct P as [P|P]; [left; lia|now right].
+  - exists st. split; [reflexivity|]. split; [exact I|]. split; [reflexivity|]. split; [reflexivity|].
+    intros _. now left.
 Qed.
 
 (* ---------------------------------------------------------------- the buffer-only accessors *)
@@ -339,7 +322,7 @@ Lemma after_ensure_agrees {A} st r (f : bbr -> res A * bbr) (ideal : list bool -
   agrees b' st (ideal (abs st)) (after_ensure r f st).
 Proof.
   intros I R H. unfold after_ensure.
-  destruct (ensure_spec st r I) as (st' & E & I' & Cc & P). rewrite E. destruct (P R) as (Ea & Pb).
+  destruct (ensure_spec st r I) as (st' & E & I' & Cc & Ea & P). rewrite E. pose proof (P R) as Pb.
   specialize (H st' I' Pb). rewrite Ea in H. destruct H as (H1 & H2). split; [exact H1|].
   intros K. destruct (H2 K) as (Q1 & Q2 & Q3 & Q4).
   split; [exact Q1|]. split; [exact Q2|]. split; [congruence|exact Q4].
@@ -350,7 +333,7 @@ Lemma read_agrees st w n :
 Proof.
   intros I R. destruct (N.lt_ge_cases w n) as [C|C].
   - (* a width that does not fit the type: refused, whatever the refill did *)
-    unfold read, after_ensure. destruct (ensure_spec st n I) as (st' & E & I' & Cc & P). rewrite E.
+    unfold read, after_ensure. destruct (ensure_spec st n I) as (st' & E & I' & Cc & Ea & P). rewrite E.
     unfold buf_read, ideal_read. rewrite br_read_invalid by exact C.
     destruct (N.ltb_spec w n) as [_|X]; [|lia]. unfold agrees; cbn [fst snd map_eof is_ok]. split; [reflexivity|discriminate].
   - unfold read. apply (after_ensure_agrees st n (buf_read w n) (ideal_read w n) 0 I ltac:(lia)).
